@@ -122,15 +122,28 @@ Proof.
   destruct l as [|y l]; [contradiction|]. cbn in H. destruct H as [->|H]; [now left|right; now apply IH].
 Qed.
 
+Lemma ins_desc_In : forall x l r, In r (ins_desc x l) <-> r = x \/ In r l.
+Proof.
+  induction l as [|y l IH]; intro r; cbn.
+  - intuition.
+  - destruct (r_tsb y <? r_tsb x)%Z; cbn; [intuition|]. rewrite IH. intuition.
+Qed.
+
+Lemma sort_desc_In : forall l r, In r (sort_desc l) <-> In r l.
+Proof.
+  intros l r. unfold sort_desc. rewrite (in_rev l r). generalize (rev l) as m.
+  induction m as [|y m IH]; cbn; [tauto|]. rewrite ins_desc_In, IH. intuition.
+Qed.
+
 Lemma db_list_sound : forall rows p s d o r,
   In r (db_list rows p s d o) -> In r rows /\ row_matches p s d o r = true.
 Proof.
   intros rows p s d o r H. unfold db_list in H.
-  assert (In r (sort_asc (filter (row_matches p s d o) rows))) as H'.
+  assert (In r (filter (row_matches p s d o) rows)) as H'.
   { destruct (o_asc o).
-    - now apply take_limit_In in H.
-    - apply in_rev in H. apply take_limit_In in H. now apply in_rev in H. }
-  apply (proj1 (sort_asc_In _ _)) in H'. now apply (proj1 (filter_In _ _ _)) in H'.
+    - apply take_limit_In in H. now apply (proj1 (sort_asc_In _ _)) in H.
+    - apply in_rev in H. apply take_limit_In in H. now apply (proj1 (sort_desc_In _ _)) in H. }
+  now apply (proj1 (filter_In _ _ _)) in H'.
 Qed.
 
 Lemma db_list_complete : forall rows p s d o r, (o_limit o < 0)%Z ->
@@ -138,9 +151,95 @@ Lemma db_list_complete : forall rows p s d o r, (o_limit o < 0)%Z ->
 Proof.
   intros rows p s d o r Hl Hin Hm. unfold db_list, take_limit.
   apply Z.ltb_lt in Hl. rewrite Hl.
-  assert (In r (sort_asc (filter (row_matches p s d o) rows))) by (apply (proj2 (sort_asc_In _ _)), (proj2 (filter_In _ _ _)); auto).
-  destruct (o_asc o); [assumption|]. rewrite rev_involutive. assumption.
+  assert (In r (filter (row_matches p s d o) rows)) by (apply (proj2 (filter_In _ _ _)); auto).
+  destruct (o_asc o).
+  - now apply (proj2 (sort_asc_In _ _)).
+  - apply in_rev. rewrite rev_involutive. now apply (proj2 (sort_desc_In _ _)).
 Qed.
+
+(* ------------------------------------------------------------------ listing order = submission order *)
+Lemma incrb_app_lt : forall a x l, incrb (a ++ x :: l) = true -> Forall (fun y => (r_tsb y < r_tsb x)%Z) a.
+Proof.
+  induction a as [|y a IH]; intros x l H; [constructor|].
+  cbn [app incrb] in H. apply andb_true_iff in H as [H1 H2]. constructor.
+  - rewrite forallb_app in H1. apply andb_true_iff in H1 as [_ H1]. cbn in H1.
+    apply andb_true_iff in H1 as [H1 _]. now apply Z.ltb_lt.
+  - exact (IH x l H2).
+Qed.
+
+Lemma ins_asc_last : forall x acc, Forall (fun y => (r_tsb y < r_tsb x)%Z) acc -> ins_asc x acc = acc ++ [x].
+Proof.
+  induction acc as [|y acc IH]; intro H; [reflexivity|]. inversion H as [|? ? Hy Hr]; subst.
+  cbn [ins_asc app]. destruct (r_tsb x <? r_tsb y)%Z eqn:E; [apply Z.ltb_lt in E; lia|]. now rewrite IH.
+Qed.
+
+Lemma ins_desc_first : forall x acc, Forall (fun y => (r_tsb y < r_tsb x)%Z) acc -> ins_desc x acc = x :: acc.
+Proof.
+  intros x [|y acc] H; [reflexivity|]. inversion H as [|? ? Hy Hr]; subst.
+  cbn [ins_desc]. apply Z.ltb_lt in Hy. now rewrite Hy.
+Qed.
+
+Lemma fold_right_rev_left : forall (f : row -> list row -> list row) l,
+  fold_right f [] (rev l) = fold_left (fun a x => f x a) l [].
+Proof. intros. apply fold_left_rev_right. Qed.
+
+Lemma sort_asc_incr_gen : forall l acc, incrb (acc ++ l) = true ->
+  fold_left (fun a x => ins_asc x a) l acc = acc ++ l.
+Proof.
+  induction l as [|x l IH]; intros acc H; [now rewrite app_nil_r|].
+  cbn [fold_left]. rewrite (ins_asc_last x acc (incrb_app_lt acc x l H)).
+  rewrite IH; rewrite <- app_assoc; [reflexivity|exact H].
+Qed.
+
+Lemma sort_asc_incr : forall l, incrb l = true -> sort_asc l = l.
+Proof. intros l H. unfold sort_asc. rewrite fold_right_rev_left. exact (sort_asc_incr_gen l [] H). Qed.
+
+Lemma sort_desc_incr_gen : forall l acc, incrb (rev acc ++ l) = true ->
+  fold_left (fun a x => ins_desc x a) l acc = rev l ++ acc.
+Proof.
+  induction l as [|x l IH]; intros acc H; [reflexivity|].
+  cbn [fold_left]. rewrite ins_desc_first.
+  - rewrite IH; cbn [rev]; [now rewrite <- app_assoc|]. rewrite <- app_assoc. exact H.
+  - apply incrb_app_lt in H. apply Forall_forall. intros y Hy. rewrite Forall_forall in H. apply H. now apply in_rev in Hy.
+Qed.
+
+Lemma sort_desc_incr : forall l, incrb l = true -> sort_desc l = rev l.
+Proof.
+  intros l H. unfold sort_desc. rewrite fold_right_rev_left.
+  rewrite (sort_desc_incr_gen l [] H). now rewrite app_nil_r.
+Qed.
+
+Lemma forallb_filter : forall (f g : row -> bool) l, forallb f l = true -> forallb f (filter g l) = true.
+Proof.
+  induction l as [|y l IH]; intro H; [reflexivity|]. cbn in H. apply andb_true_iff in H as [H1 H2].
+  cbn. destruct (g y); cbn; [rewrite H1|]; now apply IH.
+Qed.
+
+Lemma incrb_filter : forall g l, incrb l = true -> incrb (filter g l) = true.
+Proof.
+  induction l as [|y l IH]; intro H; [reflexivity|]. cbn [incrb] in H. apply andb_true_iff in H as [H1 H2].
+  cbn [filter]. destruct (g y); [|now apply IH]. cbn [incrb]. rewrite (forallb_filter _ g l H1). now apply IH.
+Qed.
+
+(** Under strictly increasing tsb the listing is the matching rows IN SUBMISSION ORDER:
+    the first [limit] of them with -a, the last [limit] of them without. *)
+Theorem list_in_submission_order : forall rows p s d o, incrb rows = true ->
+  db_list rows p s d o =
+  let m := filter (row_matches p s d o) rows in
+  if o_asc o then take_limit (o_limit o) m else rev (take_limit (o_limit o) (rev m)).
+Proof.
+  intros rows p s d o H. unfold db_list. cbv zeta.
+  pose proof (incrb_filter (row_matches p s d o) rows H) as Hm.
+  now rewrite (sort_asc_incr _ Hm), (sort_desc_incr _ Hm).
+Qed.
+
+(** Without that hypothesis it is false: two rows with equal tsb (what two history add
+    without -t produce: both 0) are listed newest first by the default listing. *)
+Definition tie_rows : list row := [mkrow 1 [97] 0%Z [] []; mkrow 2 [98] 0%Z [] []].
+Lemma tie_listing : db_list tie_rows [] [] [] (mko false false false 20%Z) = rev tie_rows.
+Proof. reflexivity. Qed.
+Lemma tie_limit : db_list tie_rows [] [] [] (mko false false false 1%Z) = [mkrow 1 [97] 0%Z [] []].
+Proof. reflexivity. Qed.
 
 (* ------------------------------------------------------------------ LIKE: no false negatives *)
 Lemma like_pct_unfold : forall p t,
@@ -266,3 +365,16 @@ Proof.
   - now rewrite app_nil_r.
   - rewrite IH, (proc_independent bang stored [] p). now rewrite app_assoc.
 Qed.
+
+(** Recording keeps the hypothesis as long as the clock value of each new row exceeds those stored. *)
+Lemma incrb_snoc : forall l x, incrb l = true -> forallb (fun r => (r_tsb r <? r_tsb x)%Z) l = true ->
+  incrb (l ++ [x]) = true.
+Proof.
+  induction l as [|y l IH]; intros x H1 H2; [reflexivity|].
+  cbn [incrb] in H1. apply andb_true_iff in H1 as [Ha Hb]. cbn [forallb] in H2. apply andb_true_iff in H2 as [Hc Hd].
+  cbn [app incrb]. rewrite forallb_app, Ha. cbn [forallb andb]. rewrite Hc. cbn [andb]. now apply IH.
+Qed.
+
+Lemma insert_keeps_order : forall rows inp tsb s i, incrb rows = true ->
+  forallb (fun r => (r_tsb r <? tsb)%Z) rows = true -> incrb (db_insert rows inp tsb s i) = true.
+Proof. intros. unfold db_insert. now apply incrb_snoc. Qed.
